@@ -63,7 +63,7 @@ struct Buf {
     }
 };
 
-struct Tok { bool isreg; uint64_t w; std::vector<uint64_t> r; };
+struct Tok { bool isreg; uint64_t w; std::vector<uint64_t> r; bool isstr = false; std::string s; };
 
 static std::vector<Buf> g_bufs;
 static bool g_redzone_ok = true;
@@ -73,7 +73,7 @@ struct Args {
     size_t i = 0;
     bool bad = false;
     uint64_t w() {
-        if (i >= t.size() || t[i].isreg) { bad = true; return 0; }
+        if (i >= t.size() || t[i].isreg || t[i].isstr) { bad = true; return 0; }
         return t[i++].w;
     }
     Buf r() {
@@ -85,11 +85,16 @@ struct Args {
         g_bufs.push_back(b);
         return b;
     }
+    std::string s() {
+        if (i >= t.size() || !t[i].isstr) { bad = true; return ""; }
+        return t[i++].s;
+    }
     size_t remaining() const { return t.size() - i; }
 };
 
 static std::vector<uint64_t> g_out;
 static std::string g_err;
+static std::string g_outs;   // string reply (ok s:<text>) when non-empty
 static inline void outw(uint64_t v) { g_out.push_back(v); }
 
 #include "gen_dispatch.inc"
@@ -106,6 +111,7 @@ static bool parse_line(const std::string &line, bool &forked, std::string &fn, A
     while (is >> tok) {
         if (tok == "[") { inreg = true; cur = Tok(); cur.isreg = true; continue; }
         if (tok == "]") { inreg = false; A.t.push_back(cur); continue; }
+        if (tok.rfind("s:", 0) == 0) { Tok t; t.isreg = false; t.isstr = true; t.w = 0; t.s = tok.substr(2); A.t.push_back(t); continue; }
         char *end = nullptr;
         unsigned long long v = strtoull(tok.c_str(), &end, 16);
         if (*end) return false;
@@ -118,6 +124,7 @@ static bool parse_line(const std::string &line, bool &forked, std::string &fn, A
 static std::string run_op(const std::string &fn, Args &A) {
     g_out.clear();
     g_err.clear();
+    g_outs.clear();
     g_bufs.clear();
     bool done = gen_dispatch(fn, A);
     if (!done) done = hand_dispatch(fn, A);
@@ -132,6 +139,7 @@ static std::string run_op(const std::string &fn, Args &A) {
         else {
             std::ostringstream os;
             os << "ok";
+            if (!g_outs.empty()) os << " s:" << g_outs;
             char tmp[32];
             for (uint64_t v : g_out) { snprintf(tmp, sizeof tmp, " %llx", (unsigned long long)v); os << tmp; }
             res = os.str();
